@@ -244,3 +244,30 @@ Check C11_timestamps_kill_keeps_acked.
 Print Assumptions C11_timestamps_kill_keeps_acked.
 Check C11_timestamps_kill_restart.
 Print Assumptions C11_timestamps_kill_restart.
+
+Require Import FL.Flw.NumDCleanupStep FL.Flw.NumDCleanupRun FL.Flw.NumDCleanupKillStep FL.Flw.NumDCleanupKill.
+(* NumbersDirect naming WITH a cleanup strategy, cleanup in the logging thread, direct mode, ANY history and ANY kill point - the
+   creation of the next numbered file, a write, and the kill points inside the cleanup (remove_file; in compress_file: create
+   archive, copy, finish, remove original).  `files`: the contents of all numbered files ever created, the file being written last
+   (there is no rCURRENT: kill_view with ocur = None).  (n, m) = klimd k are the EFFECTIVE limits of a direct naming: n >= 1 plain
+   files including the file being written (KeepLogFiles 0 and KeepCompressedFiles count as n = 1), m archives.  What the killed
+   process leaves, read by number with archives decompressed and an archive NEXT TO its original ignored (unfinished or the same
+   content), is a TAIL of the acknowledged records that contains everything a completed cleanup would have kept
+   (lo <= length files - (n + m)); nothing is there twice; and the newest numbered file - the one being written, possibly empty - is a
+   PLAIN file: the cleanup is told which file it is (CurrentSpared.v) and never compresses or removes it.
+   Side condition as in C07: the suffix does not end with .gz. *)
+Theorem C11_numbersdirect_cleanup_kill_keeps_acked c crit k n m t0 off ops1 kp ops2 :
+  numdkcfg c crit k -> klimd k = Some (n, m) -> c_cap c = None -> sfx_ok (c_spec c) ->
+  Forall basic_op ops1 -> Forall basic_op ops2 ->
+  let x1 := fst (run (sys0 t0 off) (OStart c :: ops1 ++ [OSetKill kp])) in
+  let xe := fst (run (sys0 t0 off) (OStart c :: ops1 ++ [OSetKill kp] ++ ops2 ++ [OCrash])) in
+  exists files lo,
+    kill_view c (wfs (s_w xe)) files None lo
+    /\ concat files = written ops1 ++ acked x1 ops2
+    /\ (lo <= length files - (n + m))%nat
+    /\ written ops1 ++ acked x1 ops2 = concat (firstn lo files) ++ kv_stream files None lo
+    /\ (files <> [] -> exists fl, file_of (wfs (s_w xe)) (rname c (length files - 1)) = Some fl /\ isplain fl (last files [])).
+Proof. exact (numbersdirect_cleanup_kill_keeps_acked c crit k n m t0 off ops1 kp ops2). Qed.
+
+Check C11_numbersdirect_cleanup_kill_keeps_acked.
+Print Assumptions C11_numbersdirect_cleanup_kill_keeps_acked.
